@@ -83,4 +83,14 @@ let () =
   Registry.register "oracle" (fun s ->
     match list s with
     | [r; mi; di] -> of_bool (M.c08_oracle (result_ r) (list_ fname_ mi) (list_ fname_ di))
-    | _ -> failwith "c08-oracle: bad case")
+    | _ -> failwith "c08-oracle: bad case");
+  Registry.register "text" (fun s ->
+    (* (sched project config types.ts commands.ts (events.ts)?) -> ((first difference types)? (.. commands)? events_equal) *)
+    match list s with
+    | [w; p; c; t; k; e] ->
+        let (w, p, c) = (sched_ w, project_ p, config_ c) in
+        let (dt, dc) = M.c08_text_check w p c (str_ t) (str_ k) in
+        let od = function None -> List [] | Some n -> List [of_nat n] in
+        let ev = match opt_ str_ e with None -> true | Some x -> M.c08_events_check w p c x in
+        List [od dt; od dc; of_bool ev]
+    | _ -> failwith "c08-text: bad case")
